@@ -309,7 +309,7 @@ def make_execs(bdir, tier, rng):
     q = tier == "quick"
     execs, alpha = gen_exhaustive(3 if q else 4)
     small = [(1, 1), (1, 3), (2, 2), (2, 3), (3, 2), (3, 3), (3, 4), (4, 2)]
-    medium = small + [(4, 7), (5, 5), (6, 8), (2, 33), (6, 40), (8, 6)]
+    medium = small + [(4, 7), (5, 5), (6, 8), (2, 33), (6, 40), (8, 6), (3, 32), (2, 64), (5, 96), (33, 32)]   # incl. widths = whole words
     execs += gen_random(rng, 300 if q else 3000, 30, small, True, "random-fresh-destination")
     execs += gen_random(rng, 300 if q else 3000, 30, small, False, "random-unrestricted")
     execs += gen_random(rng, 120 if q else 1500, 60, medium, True, "random-fresh-destination")
